@@ -18,7 +18,15 @@ CONFIG = dict(
                "the App's start phase is one Filter run and so is its stop phase, which is begun at most once when the start phase's modules keep the "
                "discipline (app_stop_once: no side condition left). node/app: StartNode's three refusals (no nodes table, unknown id, no launch mode) "
                "do nothing at all, an accepted StartNode is App.Start over the modules the launch mode registers, the caller's callbacks are invoked "
-               "exactly when and with what the App's phases report, after StartServices/StartNodeCtrl - also on failure. The Start/Stop bodies of all "
+               "exactly when and with what the App's phases report, after StartServices/StartNodeCtrl - also on failure. The caller's completion "
+               "callbacks are optional where the code tests `finish != nil` (App.Start, App.Stop, StopNode): the App's transitions never look at them "
+               "(they exist only in the caller-level log plainLog / nodeLog, from which dropAbsent removes the invocations of an absent one): leaving "
+               "one out changes no App-level event and no state (absent_callback_same_app), it is never invoked and a present one exactly as before "
+               "(absent_callback_never_invoked, plain_callbacks_are_app_reports), and a Stop after a start phase that reported true is accepted "
+               "without it (start_without_callback_stop_accepted). App.Start is composed with ModList's wrapper by a theorem of its own: for any "
+               "actions of the modules the App's start-phase log is the wrapper model's log wrun and the App ends in Normal iff that log holds "
+               "finish(true), else in Starting (app_start_is_wrapper_run); under the modules' discipline finish exactly once and Normal iff it was "
+               "true (app_start_completes_exactly_once). The Start/Stop bodies of all "
                "modules under node/modules are translated from the working tree on every run into a small statement language; the kernel decides that "
                "every path calls next exactly once, all six bodies are found by name, and (shipped_module_one_next / once_modules_phase_completes) any "
                "path cut short by a panic of one of its statements still gives exactly one next call of the wrapper, which composes to exactly one "
@@ -32,7 +40,9 @@ CONFIG = dict(
                "two statements swapped. The model is tied to the real code by ~20k generated ops per run (all lengths 0-5 x failure "
                "position x sync/delayed mask x phase exhaustively; panics before/after the report at every position incl. late reports; silences of "
                "1 ms .. 25 h under a virtual clock during which nothing may happen; node refusals and repeated StartNode; random cases incl. double "
-               "completion; completion callbacks that panic at every length 0-3 x failure position and kind x sync/delayed mask x phase) compared log by "
+               "completion; completion callbacks that panic at every length 0-3 x failure position and kind x sync/delayed mask x phase; absent callbacks (Start(nil) / Stop(nil) / StopNode(nil), "
+               "one or both) at every length 0-3 x failure position x mask x failing phase, each followed by the calls that reveal the App's state; "
+               "StartNode(id, nil), whose closure calls the nil callback all the same = a callback that panics without a token) compared log by "
                "log; every begin / fire of a case that fits `Chain` (~70% of them) is replayed on Chain.step as well and must give the same Filter events "
                "and the same escape of the panic. The real ClusterModule, WelcomeModule and ActorSystemModule are executed at every position of a node, "
                "the actor module also with the node's address occupied / not local (remote.Start panics: the phase must end there with false).",
@@ -44,7 +54,11 @@ CONFIG = dict(
                "ModList.Filter's non-reentrant lock is not modelled: a Stop/Start/AddModule issued by a completion callback or a module while the "
                "synchronous chain of a Filter call is still running blocks forever in the Go code (reproduced; reported as a suspected defect), "
                "such cases are not generated and start_callback_sees_normal is about a Stop issued outside that chain. The wrapper is composed with "
-               "the App at the level of next calls (AOp.call = the wrapper's next), not by a separate App-level theorem. `Chain` is one goroutine: a "
+               "the App's start phase by app_start_is_wrapper_run; for the stop phase it is still composed at the level of next calls (AOp.call = the "
+               "wrapper's next). With an absent callback the phase's report cannot be observed: the spec reads it off the modules' reports "
+               "(impliedFinish) and checks the state guard of the following calls against it; an accepted Start / Stop of an EMPTY list without a "
+               "callback shows nothing at all and counts as accepted exactly when the guard has to accept it. StartNode(id, nil) is modelled in the "
+               "driver only (absorb.finish: a panicking callback that logs nothing), tied by the differential run. `Chain` is one goroutine: a "
                "report that arrives from another goroutine while a synchronous chain is still running (COp.late with a non-empty stack) is not "
                "modelled; what the harness's frame interpreter (Driver `drain`) does beyond `Chain` - AddModule, re-entrant callbacks, the App guard, "
                "node services - is tied to the code by the differential run only. A completion callback that panics skips what follows it in the "
@@ -65,6 +79,8 @@ CONFIG = dict(
                        "app_stop_once", "app_stop_phase_is_filter_disciplined",
                        "node_refusals_silent", "node_callbacks_are_app_reports", "node_services_then_fin", "node_start_is_app_start",
                        "node_start_reports_exactly_once", "second_startnode_witness",
+                       "plain_callbacks_are_app_reports", "absent_callback_same_app", "absent_callback_never_invoked", "start_without_callback_stop_accepted",
+                       "app_start_is_wrapper_run", "app_start_completes_exactly_once",
                        "chain_refines_wrapper", "chain_stack_reported", "callback_panic_only_unwinds", "chain_disciplined_canonical", "reported_flag_order_witness",
                        "chain_panics_disciplined", "chain_mdisciplined",
                        "shipped_modules_complete_once", "shipped_modules_found", "shipped_modules_named", "shipped_module_one_next", "once_modules_phase_completes"],
@@ -79,13 +95,13 @@ CONFIG = dict(
     trivial=r"^(ok|-|noop|over|bad-op)?$",
     rule="cases = `reset` + ops on one module list (plain ModList, baseapp.App, or node/app.App driven through StartNode/StopNode with a launch mode of the harness; node cases cycle through service lists none / all configured / one missing from the `services:` map first, middle, last / all missing, so that StartServices runs its skip path inside the completion closure; every created service is observed, V<i>): (a) every path of every translated shipped Start/Stop body replayed as a scripted module at "
          "each position of a 3-module list, also cut short by a panic before / after its report; (b) exhaustive: every list length 0..5 (thorough 0..7) x failure position or none x every "
-         "synchronous/delayed mask x phase, delayed modules completed through another goroutine / a timer / directly; (b0) panics: a module panics before reporting (holding on to its callback: a late report T/F follows) or after reporting, n 1..4 x position x phase x object, in a synchronous chain and in a chain outside Filter; (b0') panicking completion callbacks (cbS / cbX = panic): every list length 0..3 (thorough 0..4) x failure position or none x how it fails (reports false / panics before reporting / reports and panics) x every synchronous/delayed mask x phase, on ModList / App / node: the panic is recovered by the innermost active module's wrapper (the rest of that module's Start/Stop is cut off), travels on when the wrapper's own finish(false) panics, or reaches the caller of next / Start / Stop (`panic` token, legitimate only directly after the callback's token) - the callback has been invoked exactly once in any case; (b1) slow: under the virtual clock (clock=v: the case runs inside one testing/synctest bubble) one module stays silent for 1 ms .. 25 h (`wait`) at every position and phase of a ModList / App - nothing may happen meanwhile - and reports then; waits after the phase is over; (b2) re-entrant callbacks: the start-completion callback issues Stop directly or through a goroutine it waits for, the stop-completion callback issues Start/Stop (only patterns that do not run under ModList.Filter's non-reentrant lock: module 0 completes later), n 1..4 x object x callback x failure position x delays; (b3) a module itself issues Stop/Start from inside its Start/Stop (directly, or by handing a Stop to another goroutine) at every position, phase, sync/delayed chain, on App and node; (b4) growing lists: a module registers a further module (AddModule) right before completing — from its delayed completion or synchronously in a chain outside Filter — at every position, and during a stop phase; node cases also cycle the launch-mode name (registered / empty / unregistered with a default launch func); (b5) the real ClusterModule / WelcomeModule / ActorSystemModule executed at every position of a node (clustering off: success; clustering on with a port-less own address: StartMember fails early, no etcd needed; actor: the node's address free - success, remote server shut down with the case -, occupied by a listener of the harness, or not local to the host: remote.Start panics, ModList's wrapper reports the failure) against the outcome the translated bodies promise; where a fault was injected the spec demands that start-up ends at that module (no later module entered, no success reported), and a real module that panics where its script does not say `!` counts as never having completed (the wrapper standing in for it does not count for a shipped module); (b6) delayed completions delivered by the application's own run service timer (GetTimerMgr().After) in both phases; (b7) node: StartNode with an unknown node id, before Prepare, and (first corpus case of the process) without any launch mode - refused silently, the node stays startable; StartNode repeated before / after start-up and after Stop with an idempotent launch mode and with one that registers its modules every time (the list grows, Stop visits never-started modules); (c) random cases from one PRNG "
-         "(VERIF_SEED): length 0..6, App or plain ModList or node, a third of the non-node cases under the virtual clock with random silences, scripts T/F/delayed/panic-before/panic-after, an eighth with panicking completion callbacks, premature or repeated Start/Stop, and in "
+         "synchronous/delayed mask x phase, delayed modules completed through another goroutine / a timer / directly; (b0) panics: a module panics before reporting (holding on to its callback: a late report T/F follows) or after reporting, n 1..4 x position x phase x object, in a synchronous chain and in a chain outside Filter; (b0') panicking completion callbacks (cbS / cbX = panic): every list length 0..3 (thorough 0..4) x failure position or none x how it fails (reports false / panics before reporting / reports and panics) x every synchronous/delayed mask x phase, on ModList / App / node: the panic is recovered by the innermost active module's wrapper (the rest of that module's Start/Stop is cut off), travels on when the wrapper's own finish(false) panics, or reaches the caller of next / Start / Stop (`panic` token, legitimate only directly after the callback's token) - the callback has been invoked exactly once in any case; (b0'') absent callbacks (cbS / cbX = nil: App.Start(nil) / App.Stop(nil) / StopNode(nil), one or both): every list length 0..3 x failure position or none x every synchronous/delayed mask x failing phase on App / node, each as Start, Start again (refused), Stop, Stop again (refused), Start again (refused) - there is no fs / fx token, the state the App reached shows in what the following call does (Stop after a successful start must visit the modules in reverse: `stop-ignored` otherwise; after a failed one it must be refused); StartNode(id, nil): the closure calls the nil callback unconditionally after the services were started - exactly one panic, in the op that ended the phase, swallowed by the wrapper of the module that reported synchronously or reaching the caller; the node is Normal all the same; (b1) slow: under the virtual clock (clock=v: the case runs inside one testing/synctest bubble) one module stays silent for 1 ms .. 25 h (`wait`) at every position and phase of a ModList / App - nothing may happen meanwhile - and reports then; waits after the phase is over; (b2) re-entrant callbacks: the start-completion callback issues Stop directly or through a goroutine it waits for, the stop-completion callback issues Start/Stop (only patterns that do not run under ModList.Filter's non-reentrant lock: module 0 completes later), n 1..4 x object x callback x failure position x delays; (b3) a module itself issues Stop/Start from inside its Start/Stop (directly, or by handing a Stop to another goroutine) at every position, phase, sync/delayed chain, on App and node; (b4) growing lists: a module registers a further module (AddModule) right before completing — from its delayed completion or synchronously in a chain outside Filter — at every position, and during a stop phase; node cases also cycle the launch-mode name (registered / empty / unregistered with a default launch func); (b5) the real ClusterModule / WelcomeModule / ActorSystemModule executed at every position of a node (clustering off: success; clustering on with a port-less own address: StartMember fails early, no etcd needed; actor: the node's address free - success, remote server shut down with the case -, occupied by a listener of the harness, or not local to the host: remote.Start panics, ModList's wrapper reports the failure) against the outcome the translated bodies promise; where a fault was injected the spec demands that start-up ends at that module (no later module entered, no success reported), and a real module that panics where its script does not say `!` counts as never having completed (the wrapper standing in for it does not count for a shipped module); (b6) delayed completions delivered by the application's own run service timer (GetTimerMgr().After) in both phases; (b7) node: StartNode with an unknown node id, before Prepare, and (first corpus case of the process) without any launch mode - refused silently, the node stays startable; StartNode repeated before / after start-up and after Stop with an idempotent launch mode and with one that registers its modules every time (the list grows, Stop visits never-started modules); (c) random cases from one PRNG "
+         "(VERIF_SEED): length 0..6, App or plain ModList or node, a third of the non-node cases under the virtual clock with random silences, scripts T/F/delayed/panic-before/panic-after, an eighth with panicking completion callbacks, an eighth of the App / node cases with absent callbacks, premature or repeated Start/Stop, and in "
          "`neg` cases double/late/stale completions. An op is non-trivial when its observation contains at least one log token "
          "(not ok / - / noop / over); distinct = distinct (op, observation) pairs",
     trusted_base=[
         "Lean 4.33.0 kernel; axioms of every property theorem audited on each run (allowed: propext, Classical.choice, Quot.sound)",
-        "hand-written model lean/Cell2v/Model/Modules.lean (ModList.Filter closures, the Start/Stop wrapper with its two flags, the stack of nested Start/Stop calls with a panicking completion callback (Chain), App state guard, node/app StartNode/StopNode + LaunchApp) tied to the Go code by the differential run of this check (harness/c11 + modeld_c11)",
+        "hand-written model lean/Cell2v/Model/Modules.lean (ModList.Filter closures, the Start/Stop wrapper with its two flags, the stack of nested Start/Stop calls with a panicking completion callback (Chain), App state guard, node/app StartNode/StopNode + LaunchApp, the optional caller callbacks plainLog / dropAbsent) tied to the Go code by the differential run of this check (harness/c11 + modeld_c11)",
         "translator harness/extract/c11 (go/ast, ~500 lines): Start/Stop bodies under node/modules -> Stmt terms (lean/Cell2v/Gen/C11Modules.lean) and call sequences per path (JSON replayed through the real ModList)",
         "the driver's frame interpreter (Driver/C11.lean `drain`: scripts, AddModule, re-entrant callbacks) - cross-checked against Chain.step on every op of the cases Chain covers (`chain-mismatch`)",
         "harness canonicalisation: log tokens only (module index, phase, bool, service index, PrepareModules marker); panics escaping the code under test mapped to 'panic', no return within 4 s (20 s real time for a case under the virtual clock) to 'blocked'",
@@ -96,6 +112,7 @@ CONFIG = dict(
         "AddModule during a phase is modelled between completion events only (it takes the same lock as Filter: inside Filter's synchronous chain it would block forever); the App-level theorems are for a fixed list; finish does not re-enter the list from inside a synchronous chain (it may return or panic: Chain / callback_panic_only_unwinds)",
         "shipped modules: branch conditions are independent and opaque; statements that do not mention the callback terminate (ClusterModule.Start blocks in StartMember while etcd is unreachable: then the module never completes and neither does the phase) and panic, if at all, on the goroutine that runs Start/Stop (ActorSystemModule.Start's remote.Start does, when the address cannot be bound: executed); a callback handed to other code (timer, helper function) is not interpreted and fails the obligation",
         "each module's Start/Stop is unwound by at most one panic per phase (a Go function panics out once) - part of MDisciplined; proved for one goroutine's chain of nested calls (chain_panics_disciplined), assumed only where a module panics on a goroutine of its own",
+        "ModList.Start / ModList.Stop are given a callback (they call it unconditionally; App.Start / App.Stop always pass their own closure); StartNode(id, nil) calls the nil callback after the state was set and the services were started (executed: one panic; reported as a suspected defect - StopNode has the nil check)",
         "App.Prepare is called once per App (a second Prepare re-opens the Start guard by design)",
         "a completion callback that re-enters Start/Stop runs outside ModList.Filter (on the unchanged tree a Stop issued from the start callback of an all-synchronous module list deadlocks on Filter's non-reentrant lock; such cases are not generated)",
         "node/app: an accepted StartNode whose launch mode registers modules happens once per node (node_start_is_app_start; a second one registers them again before the App guard refuses it: second_startnode_witness, exercised by the harness); StartNodeCtrl runs with node control off; nodes.yaml is readable (config.LoadNodes never returns nil: the `nodes == nil` refusal is reached only without Prepare)",
